@@ -2,6 +2,8 @@
 import datetime
 import math
 
+import numpy as np
+
 from hypothesis import strategies as st
 
 from .. import repo, strategies as S, trcases as TR
@@ -30,10 +32,18 @@ def _date(e):
     return datetime.date(*e)
 
 
-def _advanced(tr, epoch):
-    dt = (epoch - tr.ref_epoch).days / 365.25
-    p = TR.params_of(tr)
-    r = TR.rates_of(tr)
+def _advanced(tr, epoch, spec=None):
+    """Parameters at the epoch.  For generated sets the values and the reference epoch come from the generated spec (and the
+    object must hold exactly those), for shipped sets from the constant."""
+    if spec is not None and "name" not in spec:
+        p = TR.expected_params(spec, tr)
+        r = TR.spec_values(spec)[1]
+        ref = _date(spec["epoch"])
+        if tr.ref_epoch != ref:
+            raise Fail("a Transformation does not hold the reference epoch it was constructed with", expected=ref, observed=tr.ref_epoch)
+    else:
+        p, r, ref = TR.params_of(tr), TR.rates_of(tr), tr.ref_epoch
+    dt = (epoch - ref).days / 365.25
     return tuple(a + b * dt for a, b in zip(p, r)), dt
 
 
@@ -53,7 +63,7 @@ def check_linear(case):
     tr = _trans(case)
     epoch = _date(case["epoch"])
     X = case["X"]
-    p, dt = _advanced(tr, epoch)
+    p, dt = _advanced(tr, epoch, case["trans"])
     got = tf.conform14(X[0], X[1], X[2], epoch, tr)
     if not (isinstance(got, tuple) and len(got) == 4):
         raise Fail("conform14 did not return (x, y, z, vcv)", observed=repr(got))
@@ -69,6 +79,38 @@ def check_linear(case):
         d7 = _dist(got[:3], c7[:3])
         if not d7 <= 2e-6:
             raise Fail("at the reference epoch conform14 does not reduce to conform7", expected=c7[:3], observed=got[:3])
+    if case.get("vcv") is not None:
+        _with_covariance(tf, tr, epoch, X, np.array(case["vcv"], dtype=float), got)
+
+
+def _same_cov(a, b):
+    if a is None or b is None:
+        return a is None and b is None
+    a, b = np.asarray(a, dtype=float), np.asarray(b, dtype=float)
+    return a.shape == b.shape and TR.fro(a - b) <= 1e-12 * (TR.fro(b) + 1e-300)
+
+
+def _with_covariance(tf, tr, epoch, X, V, plain):
+    """A covariance travelling with the point: the point is transformed as without it, and the covariance is what the
+    7-parameter operation returns for the set brought to the epoch (conform14 is that operation)."""
+    got = tf.conform14(X[0], X[1], X[2], epoch, tr, V)
+    if not (isinstance(got, tuple) and len(got) == 4):
+        raise Fail("conform14 with a covariance did not return (x, y, z, vcv)", observed=repr(got))
+    if tuple(float(v) for v in got[:3]) != tuple(float(v) for v in plain[:3]):
+        raise Fail("supplying a covariance to conform14 changes the transformed point", expected=plain[:3], observed=got[:3],
+                   bucket="conform14 vcv changes point")
+    ref = tf.conform7(X[0], X[1], X[2], tr + epoch, V)
+    if not _same_cov(got[3], ref[3]):
+        raise Fail("conform14's covariance is not the one the 7-parameter operation returns for the set advanced to the epoch",
+                   expected=ref[3], observed=got[3], bucket="conform14 vcv")
+    if tr.tf_sd is not None:
+        out = got[3]
+        if out is None or np.shape(out) != (3, 3):
+            raise Fail("conform14 with a covariance and a set with uncertainties returned no 3x3 covariance", observed=repr(out),
+                       bucket="conform14 vcv missing")
+        sc = TR.fro(out) + 1e-300
+        if TR.fro(out - out.T) > 1e-12 * sc or float(np.linalg.eigvalsh((out + out.T) / 2).min()) < -1e-12 * sc:
+            raise Fail("conform14's covariance is not symmetric positive semi-definite", observed=out, bucket="conform14 vcv psd")
 
 
 def check_reverse(case):
@@ -76,7 +118,7 @@ def check_reverse(case):
     tr = _trans(case)
     epoch = _date(case["epoch"])
     X = case["X"]
-    p, dt = _advanced(tr, epoch)
+    p, dt = _advanced(tr, epoch, case["trans"])
     a = tf.conform14(X[0], X[1], X[2], epoch, tr)
     b = tf.conform14(a[0], a[1], a[2], epoch, -tr)
     d = _dist(b[:3], X)
@@ -92,6 +134,15 @@ def check_atrf(case):
     c = repo.mod("geodepy.constants")
     epoch = _date(case["epoch"])
     X = case["X"]
+    if case.get("vcv") is not None:
+        V = np.array(case["vcv"], dtype=float)
+        for fn, tset, nm in ((tf.transform_atrf2014_to_gda2020, c.atrf2014_to_gda2020, "transform_atrf2014_to_gda2020"),
+                             (tf.transform_gda2020_to_atrf2014, -c.atrf2014_to_gda2020, "transform_gda2020_to_atrf2014")):
+            w = fn(X[0], X[1], X[2], epoch, V)
+            r = tf.conform14(X[0], X[1], X[2], epoch, tset, V)
+            if tuple(w[:3]) != tuple(r[:3]) or not _same_cov(w[3], r[3]):
+                raise Fail("%s with a covariance is not conform14 with the (negated) plate-motion set and that covariance" % nm,
+                           expected={"xyz": r[:3], "vcv": r[3]}, observed={"xyz": w[:3], "vcv": w[3]}, bucket="atrf wrapper vcv")
     fwd = tf.transform_atrf2014_to_gda2020(X[0], X[1], X[2], epoch)
     ref = tf.conform14(X[0], X[1], X[2], epoch, c.atrf2014_to_gda2020)
     if tuple(fwd[:3]) != tuple(ref[:3]):
@@ -140,12 +191,18 @@ def _random_set(draw):
             [draw(S.floats(-0.3, 0.3)) for _ in range(3)]   # 0.3 arcsec/yr x 81 yr < 25 arcsec
     # the two shipped ITRF2020 -> ITRF2014 sets share their labels; random sets sometimes re-use catalogue labels too
     lab = draw(st.sampled_from([("A", "B"), ("ITRF2020", "ITRF2014"), ("ITRF2014", "GDA2020"), ("X", "Y")]))
-    return {"p": p, "rates": rates, "epoch": list(ep), "from": lab[0], "to": lab[1], "sd": None}
+    sd = sdr = None
+    if draw(st.integers(0, 2)) == 0:
+        # a set that carries parameter uncertainties and rate uncertainties (the uncertainty branch of T + epoch)
+        sd = draw(TR.random_sd7())
+        sdr = [v * 0.1 for v in draw(TR.random_sd7())]
+    return {"p": p, "rates": rates, "epoch": list(ep), "from": lab[0], "to": lab[1], "sd": sd, "sdr": sdr, "pnum": draw(TR.pnum_kind)}
 
 
+_vcv_opt = st.one_of(st.none(), st.none(), TR.psd3())
 cases = st.fixed_dictionaries({"trans": st.one_of(st.deferred(_shipped), st.deferred(_shipped), _random_set()),
-                               "epoch": _epoch(), "X": TR.point(1e7)})
-atrf_cases = st.fixed_dictionaries({"epoch": _epoch(), "X": TR.point(1e7)})
+                               "epoch": _epoch(), "X": TR.point(1e7), "vcv": _vcv_opt})
+atrf_cases = st.fixed_dictionaries({"epoch": _epoch(), "X": TR.point(1e7), "vcv": _vcv_opt})
 
 
 def enumerate_shipped(tier, seed, shard, nshards):
